@@ -21,8 +21,9 @@ RULE = ("scenarios {same variable, two images of one tree, tree + pickled copy} 
         "start/lock/open/seek/read/close and 2 threads x 2 chunks, enumerated completely by DFS, sharded by schedule prefix; "
         "3 threads x 1 chunk on three different images / one variable / tree+copy with the coarse yield points start/open/seek/read "
         "(34650 orders when uncontended)} plus line-level schedules (yield points at every statement start of array.py / xarray.py on "
-        "the read path in addition to I/O and lock points; every schedule with at most 2 (quick) / 3 (thorough) preemptions for 2 threads, "
-        "1 / 2 for 3 threads, enumerated completely) plus seeded random schedules of larger loads (2-4 threads on up to 4 images, 1-3 chunks "
+        "the read path in addition to I/O and lock points; every schedule with at most 2 preemptions for 2 threads x 1 chunk (thorough also 2 x 2) and "
+        "at most 1 for 3 threads, enumerated completely; thorough additionally samples bound 3 (2 threads) and bound 2 (3 threads) depth-first up to "
+        "15000 / 10000 runs per shard) plus seeded random schedules of larger loads (2-4 threads on up to 4 images, 1-3 chunks "
         "each, mixed selections) and free-running threads (3-5 threads x 25-60 loads) with sleep(0) injected by a sys.monitoring LINE "
         "callback at statement starts of array.py / xarray.py (non-deterministic, seeds logged); thorough adds 3 threads x 2 chunks coarse. evaluations = schedules executed; distinct = distinct executed interleavings "
         "(trace strings) per scenario; non-trivial = schedule in which at least two threads' file operations interleave or contend")
@@ -55,17 +56,19 @@ def _plan(tier):
     # line-level yield points (every statement start of array.py / xarray.py on the read path, plus the I/O and lock points),
     # all schedules with at most `bound` preemptions, top-level branches dealt to shards
     for sc in SCENARIOS:
-        b, nsh = (2, 8) if tier == "quick" else (3, 96)
-        for k in range(nsh):
-            cases.append(("pb", sc, 2, 1, (b, k, nsh)))
+        for k in range(8):
+            cases.append(("pb", sc, 2, 1, (2, k, 8, None)))       # complete
     for sc in SCENARIOS:
-        b, nsh = (1, 1) if tier == "quick" else (2, 64)
-        for k in range(nsh):
-            cases.append(("pb", sc, 3, 1, (b, k, nsh)))
+        cases.append(("pb", sc, 3, 1, (1, 0, 1, None)))          # complete
     if tier == "thorough":
+        # deeper bounds are sampled: each shard explores its share of the top-level branches depth-first up to a run limit
         for sc in SCENARIOS:
             for k in range(32):
-                cases.append(("pb", sc, 2, 2, (2, k, 32)))
+                cases.append(("pb", sc, 2, 1, (3, k, 32, 15000)))
+            for k in range(32):
+                cases.append(("pb", sc, 3, 1, (2, k, 32, 10000)))
+            for k in range(32):
+                cases.append(("pb", sc, 2, 2, (2, k, 32, None)))  # complete
     nrand = 48 if tier == "quick" else 600
     for k in range(nrand):
         cases.append(("random", SCENARIOS[k % 3], 2 + k % 3, 1 + k % 3, k))
@@ -92,7 +95,7 @@ def case_weight(i, tier, seed):
     if kind == "free":
         return 40
     if kind == "pb":
-        return 30 if tier == "quick" else 200
+        return 30 if p[3] is None else 120
     return {"different-images": 120, "same-variable": 2, "pickled-copy": 2}[sc] * (10 if nchunks == 2 else 1) * (4 if nt == 3 else 1)
 
 
@@ -231,7 +234,7 @@ def run_case(i, tier, seed):
 
 
 def _pb_case(i, tier, seed, scenario, nthreads, nchunks, p, tree, copy, exp, rpc, obs):
-    bound, k, nsh = p
+    bound, k, nsh, run_limit = p
     if not sched.install_line_yields():
         return {"sig": "pb-unavailable", "evals": 0, "violations": [], "obs": obs,
                 "inconclusive": "sys.monitoring LINE events are not available for the line-level scheduler"}
@@ -240,7 +243,7 @@ def _pb_case(i, tier, seed, scenario, nthreads, nchunks, p, tree, copy, exp, rpc
     tracefs.HOOK = sched.fs_hook
     sched.FINE[0] = True
     try:
-        r = sched.explore_pb(jobs, _checker(want), bound=bound, shard=(k, nsh), limit=60000 if tier == "quick" else 400000)
+        r = sched.explore_pb(jobs, _checker(want), bound=bound, shard=(k, nsh), limit=run_limit or 200000)
     finally:
         sched.FINE[0] = False
     obs["schedules"] += r["runs"]
@@ -257,9 +260,9 @@ def _pb_case(i, tier, seed, scenario, nthreads, nchunks, p, tree, copy, exp, rpc
     inconclusive = None
     if r["hung"] and not r["deadlocks"]:
         inconclusive = "threads did not finish within the join timeout without a scheduler-visible deadlock"
-    elif not r["complete"]:
+    elif not r["complete"] and run_limit is None:
         inconclusive = f"preemption-bounded enumeration stopped at the run limit ({r['runs']} runs)"
-    return {"sig": f"pb{bound}|{scenario}|{nthreads}x{nchunks}", "evals": r["runs"], "violations": violations, "obs": obs,
+    return {"sig": f"pb{bound}{'' if run_limit is None else '-sampled'}|{scenario}|{nthreads}x{nchunks}", "evals": r["runs"], "violations": violations, "obs": obs,
             "inconclusive": inconclusive,
             "sample": {"scenario": scenario, "threads": nthreads, "chunks_per_thread": nchunks, "yield_points": "lines+io+lock",
                        "preemption_bound": bound, "shard": [k, nsh], "schedules": r["runs"], "steps_per_schedule": r["max_depth"]}}
@@ -374,7 +377,7 @@ def _free_case(i, tier, seed, scenario, nthreads, k, tree, copy, exp, lines, obs
 def finish(results, tier, seed):
     per = {}
     for r in results:
-        if isinstance(r.get("sig"), str) and r["sig"].startswith(("dfs", "pb")):
+        if isinstance(r.get("sig"), str) and r["sig"].startswith(("dfs", "pb")) and "-sampled" not in r["sig"]:
             per[r["sig"]] = per.get(r["sig"], 0) + r.get("evals", 0)
     total = sum(r.get("obs", {}).get("interleaved", 0) for r in results)
     return {"exhaustive": False, "interleavings_enumerated_completely": per, "distinct_nontrivial": total,
